@@ -334,7 +334,11 @@ func (m *Module) AssignGlobalIDs() error {
 			// variables, aliases, indirect functions, functions); an ID assigned
 			// earlier (by the parser in textual order, or by a previous call before
 			// the module was edited) is replaced.
-			n.SetID(id)
+			if n.ID() != id {
+				// Write only on change: concurrent printers read the ID without
+				// holding the lock.
+				n.SetID(id)
+			}
 			id++
 		}
 		return nil
